@@ -2,6 +2,7 @@ package props
 
 import (
 	"context"
+	"fmt"
 	"strings"
 	"testing"
 
@@ -130,16 +131,51 @@ func c05Prop(c *sim.Case) {
 	c.FP(ho.o.Store, ho.o.CookiePrefix != "", strings.Join(ks, ","))
 }
 
+// c05Server: the same monitor over histories that travel through the gRPC server the service runs (request-id and
+// logging interceptors included; odd shards log everything at debug level), on the real clock: what leaves the
+// process is what counts.
+func c05Server(c *sim.Case) {
+	ho := genHistOpts(c)
+	ho.o.CookiePrefix = pfx(c, "prefix")
+	ho.o.Logout = true
+	ho.o.ViaServer, ho.o.ViaGRPC = true, true
+	ho.o.Abs, ho.o.Idle = 0, 0
+	if ho.o.Store == "redis" {
+		stop := sim.RealTimeRedis()
+		defer stop()
+	}
+	p := c05Profile
+	p.wAdvance = 0 // the real clock does not jump
+	ops := append([]op{{K: "login", B: 0, Target: "/a"}, {K: "nav", B: 0, Target: "/a"}}, genOps(c, p, 12)...)
+	c.Logf("world (via the gRPC server): %v prefix=%q", ho, ho.o.CookiePrefix)
+	logOps(c, ops)
+	h := ho.build(c, &c05Mon{everIssued: map[string]int{}})
+	defer h.w.Close()
+	for i := range ops {
+		h.exec(&ops[i])
+	}
+	if h.okCount == 0 {
+		c.Violation("login-failed", "a plain login through the gRPC server did not end in an OK answer")
+	}
+	c.NonTrivial()
+	c.Class("via-grpc-server")
+	c.FP("server", ho.o.Store, fmt.Sprint(c.Trace))
+}
+
 func TestC05(t *testing.T) {
 	r := sim.NewRun(t, "C05")
 	defer r.Finish()
-	r.Rule = "histories of 3 browsers and an attacker presenting absent, stale, attacker-chosen (planted before the victim logs in), pending and authenticated session ids on application, callback and logout paths, cookie-name prefixes from the RFC 6265 token alphabet, memory and Redis stores, real random generator. Non-trivial = a login redirect answered a request that presented an id the service had issued earlier (so there was something to destroy); distinct = distinct (store, prefix?, step kinds and verdicts)."
+	if r.Shard%2 == 1 {
+		sim.EnableDebugLogging() // odd shards run with every logging scope at debug level: logging must not change what is answered
+	}
+	r.Rule = "histories of 3 browsers and an attacker presenting absent, stale, attacker-chosen (planted before the victim logs in), pending and authenticated session ids on application, callback and logout paths, cookie-name prefixes from the RFC 6265 token alphabet, memory and Redis stores, real random generator; a 'server' part sends short histories through the service's own gRPC server (interceptors included; odd shards with every logging scope at debug level). Non-trivial = a login redirect answered a request that presented an id the service had issued earlier (so there was something to destroy); distinct = distinct (store, prefix?, step kinds and verdicts)."
 	r.Assumptions = []string{"cookie-name prefixes are RFC 6265 token characters", "Set-Cookie parsed per RFC 6265 section 5.2; the old session is inspected below the spy store"}
-	parts := map[string]func(*sim.Case){"histories": c05Prop}
+	parts := map[string]func(*sim.Case){"histories": c05Prop, "server": c05Server}
 	if r.Replay != "" {
 		r.ReplayFile(parts)
 		return
 	}
 	r.CheckKnown(parts)
 	r.Rapid("histories", r.N(15000, 250000), c05Prop)
+	r.Rapid("server", r.N(400, 8000), c05Server)
 }
